@@ -3,8 +3,10 @@ package c03
 import (
 	"encoding/json"
 	"fmt"
+	"os"
 	"sync/atomic"
 	"testing"
+	"time"
 
 	"verif/enumx"
 	"verif/ref/cryptokeys"
@@ -83,10 +85,25 @@ func run(r *enumx.Run, replay *enumx.ReplayCase) {
 		}
 	}
 
-	asymXor := []byte{0x01, 0x80, 0xFF}
+	// RSA private-key operations cost milliseconds (kit rebuilds the key from
+	// the JWK on every call, without CRT values): the xor values tried per
+	// position are tiered for the asymmetric mutations only
+	asymXor := []byte{0x01, 0x80, 0xFF} // signature / digest / label
+	rsaCTXor := []byte{0x01}            // RSA-OAEP ciphertext
 	if r.Thorough() {
 		asymXor = allXor
+		rsaCTXor = []byte{0x01, 0x02, 0x04, 0x08, 0x10, 0x20, 0x40, 0x80, 0xFF}
 	}
+
+	// sym-dec varies nonce length and tag length together. thorough: all 33x33
+	// pairs for every plaintext length. quick: all pairs for the plaintext
+	// lengths around the block boundaries; for the other lengths every pair in
+	// which at least one of the two is a length some algorithm uses (12, 16, 24,
+	// 32) or 0 - i.e. each of nonce and tag still takes every value 0..32
+	// against every valid value of the other.
+	edge := map[int]bool{0: true, 12: true, 16: true, 24: true, 32: true}
+	boundary := map[int]bool{0: true, 1: true, 15: true, 16: true, 17: true, 31: true, 32: true, 33: true, 64: true, 100: true}
+	fullPairs := func(pl int) bool { return r.Thorough() || boundary[pl] }
 
 	var units []unit
 	add := func(sec string, fn func(u *ctx)) { units = append(units, unit{sec, fn}) }
@@ -135,6 +152,9 @@ func run(r *enumx.Run, replay *enumx.ReplayCase) {
 							}
 							for ki, k := range u.e.keys {
 								for _, nl := range nonces {
+									if !fullPairs(pl) && !edge[nl] && !edge[tl] {
+										continue
+									}
 									c.Key, c.Nonce = u.e.ids[ki], nl
 									f, _ := symFaults("DecryptSymmetric", a, k, nl, len(ct), tl, true)
 									u.count(one(f))
@@ -287,7 +307,7 @@ func run(r *enumx.Run, replay *enumx.ReplayCase) {
 					chunk := chunk
 					add("asym-mut", func(u *ctx) {
 						for pos := chunk; pos < chunk+32; pos++ {
-							for _, v := range asymXor {
+							for _, v := range rsaCTXor {
 								c := Case{Sec: "asym-dec", Alg: a.Name, Key: "RSA-2048/private#A", PT: pl, AAD: 2, Mut: &Mut{Comp: "ciphertext", Op: "xor", Pos: pos, Val: v}}
 								u.count(true)
 								u.emit(c, u.e.evalAsymDec(c))
@@ -297,7 +317,7 @@ func run(r *enumx.Run, replay *enumx.ReplayCase) {
 				}
 				add("asym-mut", func(u *ctx) {
 					for _, ai := range []int{0, 2} {
-						eachMutation("label", len(aads[ai]), allXor, func(m Mut) {
+						eachMutation("label", len(aads[ai]), asymXor, func(m Mut) {
 							m2 := m
 							c := Case{Sec: "asym-dec", Alg: a.Name, Key: "RSA-2048/private#A", PT: pl, AAD: ai, Mut: &m2}
 							u.count(true)
@@ -387,10 +407,11 @@ func run(r *enumx.Run, replay *enumx.ReplayCase) {
 	total := map[string]int{}
 	done := map[string]*atomic.Int64{}
 	evals := map[string]*atomic.Int64{}
+	busy := map[string]*atomic.Int64{}
 	for _, u := range units {
 		total[u.sec]++
 		if done[u.sec] == nil {
-			done[u.sec], evals[u.sec] = new(atomic.Int64), new(atomic.Int64)
+			done[u.sec], evals[u.sec], busy[u.sec] = new(atomic.Int64), new(atomic.Int64), new(atomic.Int64)
 		}
 	}
 	// slow sections first so that the tail is short
@@ -409,18 +430,22 @@ func run(r *enumx.Run, replay *enumx.ReplayCase) {
 	}
 	r.Parallel(len(sorted), func(i int) {
 		u := &ctx{r: r, e: getEnv()}
+		t0 := time.Now()
 		sorted[i].fn(u)
+		busy[sorted[i].sec].Add(int64(time.Since(t0)))
 		putEnv(u.e)
 		r.Count(u.n, u.nt)
 		evals[sorted[i].sec].Add(u.n)
 		done[sorted[i].sec].Add(1)
 	})
 	perSec := map[string]int64{}
+	busySec := map[string]float64{}
 	for _, sec := range []string{"sym-enc", "sym-dec", "sym-mut", "kw", "aead", "asym-enc", "asym-dec", "asym-mut", "sig", "sig-mut"} {
 		if total[sec] == 0 {
 			continue
 		}
 		perSec[sec] = evals[sec].Load()
+		busySec[sec] = float64(busy[sec].Load()/1e7) / 100
 		if int(done[sec].Load()) == total[sec] {
 			r.Space(fmt.Sprintf("%s: %d cases", sec, evals[sec].Load()))
 		} else {
@@ -428,6 +453,23 @@ func run(r *enumx.Run, replay *enumx.ReplayCase) {
 		}
 	}
 	r.Set("evaluations_per_section", perSec)
+	envMu.Lock()
+	for i, n := range statNames {
+		var sum int64
+		for _, e := range allEnvs {
+			sum += e.st[i]
+		}
+		r.Set(n, sum)
+		if os.Getenv("C03_VERBOSE") != "" {
+			fmt.Println(n, sum)
+		}
+	}
+	envMu.Unlock()
+	r.Set("worker_seconds_per_section", busySec)
+	if os.Getenv("C03_VERBOSE") != "" {
+		fmt.Println("evaluations per section:", perSec)
+		fmt.Println("worker-seconds per section:", busySec)
+	}
 	if !mastersIntact() {
 		r.Violation("machinery/check-inputs-modified", "the shared input strings of the check were modified during the run", nil)
 	}
